@@ -29,15 +29,27 @@ CHECK_DEADLOCK FALSE
 def c19(ctx):
     q = ctx.quick
     ops, horizon = (4, 7) if q else (6, 9)
-    inv = "C19_Runs C19_StopPrompt C19_NoLeak"
+    inv = "C19_Runs C19_NoLeak C19_ArmedIsCurrent"
     behs = []
-    for kind, dev, name in (("timeout", "{}", "timeout"), ("interval", "{}", "interval_design"),
-                            ("interval", '{"TickWindow"}', "interval_asis")):
+    # the invariants are not vacuous: the defect class of the implementation as found (a tick that fired before a Stop or
+    # Refresh still acts) and a Stop that leaves the runtime timer armed must violate them
+    sens = {}
+    for kind, dev, want in (("interval", "NoGen", "C19_Runs"), ("timeout", "NoGen", "C19_Runs"), ("interval", "StopKeepsArmed", "C19_NoLeak")):
+        ok = M.tlc_expect_violation(ctx, "Timer", TIMER_CFG % (kind, 2, 4, 7, '{"%s"}' % dev, want), "dev_%s_%s" % (dev, kind), want)
+        sens["%s/%s" % (dev, kind)] = ok
+        if ok and ctx.last_counterexample:
+            b = ctx.last_counterexample
+            for a in b:
+                if a["a"] == "create":
+                    a["p"] = 2
+            behs.append(b)
+    ctx.extra["model_deviations_detected"] = sens
+    if not all(sens.values()):
+        raise M.Inconclusive("Timer.tla is not sensitive to %s" % [k for k, v in sens.items() if not v])
+    for kind, dev, name in (("timeout", "{}", "timeout"), ("interval", "{}", "interval")):
         for p in ((2,) if q else (2, 3)):
             M.tlc_model(ctx, "Timer", TIMER_CFG % (kind, p, ops, horizon, dev, inv), "%s_p%d" % (name, p),
                         coverage=not q)
-            if name == "interval_design":
-                continue  # the code as it stands has the tick window; replay the as-is behaviours
             bs = M.tlc_simulate(ctx, "Timer", TIMER_CFG % (kind, p, ops, horizon, dev, "Emit"), "sim_%s_p%d" % (name, p),
                                 num=150 if q else 1500, depth=40, seed=ctx.seed)
             for b in bs:
@@ -59,9 +71,10 @@ def c19(ctx):
     ctx.extra["distinct_nontrivial"] = len({json.dumps([(e["e"], e.get("c"), e.get("point")) for e in M.scenario_slice(evs, s)
                                                         if e["e"] not in ("census", "reset")]) for s in scns})
     M.classify(ctx, viols)
-    ctx.assumptions = ["Go >= 1.23 timer channel semantics (Stop/Reset drain a pending tick)",
-                       "Refresh concurrent with a Stop still in progress has no defined outcome and is not explored",
-                       "callback start is identified with the instant the timer goroutine calls/spawns it"]
+    ctx.assumptions = ["time.AfterFunc semantics of the Go runtime (Stop prevents a timer that has not fired from firing)",
+                       "callback start is identified with the callback's first statement; the window between a runtime timer "
+                       "firing and its goroutine reaching the timer's mutex is stepped through the yield point timer.fired",
+                       "a runtime timer left armed after the final cancellation is observed by its goroutine showing up at the yield point"]
     return M.finish(ctx, rule="one trace = one bubble run of utils.Timer (TLC behaviour of Timer.tla replayed through the "
                     "verif gates, or a seeded random script); distinct = distinct event-name sequences",
                     evs=evs)
